@@ -969,6 +969,8 @@ class SArray(_np.ndarray):
 
     def astype(self, dtype, *a, **k):
         dt = _ldt(dtype)
+        if dt is not None and dt.kind in "iub" and cfg.concrete_ints and not any(isinstance(x, Sym) for x in self.ravel()):
+            return _np.asarray([_cast(x, dt) for x in self.ravel()], dtype=dt).reshape(self.shape)
         if dt is not None and dt.kind in "iufb":
             out = SArray(self.shape, dt)
             flat = [_cast(x, dt) for x in self.ravel()]
